@@ -48,10 +48,60 @@ class C20(PropertyCheck):
                                     "no_longer_checks": "corr:C20:placement", "output": p.stdout[-3000:], "error": str(e)})
                 print("VIOLATION property=C20 replay=%s no-failing-input-found" % path)
                 return 1
-        return 1 if (rc or p.returncode != 0) else 0
+        fwd_viol = self.forwarded_placement()
+        return 1 if (rc or p.returncode != 0 or fwd_viol) else 0
+
+    def forwarded_placement(self):
+        """third part — placement through the forwarding hop of a cluster (harness/fsm, model mode raft): writes handed to a
+        follower with ForwardCommand, the same bytes for different databases within one gossip round included, must reach the
+        leader in the database they were sent to, once each (the strict class of checks/C07.py forward_burst: two nodes,
+        commuting writes; the rest is the recorded finding KF-C07-forwarding-not-exactly-once)"""
+        import C07 as c07
+        rng = random.Random(self.seed + 77)
+        scripts = [c07.forward_burst(rng, "cf%d" % i, 2) for i in range(40 if self.tier == "quick" else 600)]
+        scripts = [s for s in scripts if not c07.fwd_in_trigger(s)]
+        impl = c07.run_impl07(scripts, 1.0); model = c07.run_model07(scripts)
+        refs = {s.id: c07.fwd_reference(s) for s in scripts}
+        refout = c07.run_model07(list(refs.values()))
+        nviol, ndiv = 0, 0
+        for s in scripts:
+            a = impl.get(s.id, ["<no output>"]); b = model.get(s.id, ["<no output>"])
+            v = c07.oracle07(s, a) or c07.fwd_verdict(s, a, refout.get(refs[s.id].id, ["<no output>"]))
+            d = c07.compare07(s, a, b)
+            if v and nviol < 3:
+                path = write_replay("C20", "F_viol%d" % nviol, {"property": "C20", "kind": "implementation rejected by the property's reference (placement through forwarding)",
+                                    "script": s.to_json(), "impl_trace": a, "verdict": v, "seed": self.seed})
+                print("VIOLATION property=C20 replay=%s" % path)
+            elif d and not v and ndiv < 2:
+                path = write_replay("C20", "F_corr%d" % ndiv, {"property": "C20", "kind": "model/implementation correspondence no longer checks; the reference accepted the trace",
+                                    "no_longer_checks": "corr:C20:forwarding", "script": s.to_json(), "impl_trace": a, "model_trace": b,
+                                    "first_difference": {"index": d[0], "impl": d[1], "model": d[2]}, "seed": self.seed})
+                print("VIOLATION property=C20 replay=%s no-failing-input-found" % path)
+            nviol += bool(v); ndiv += bool(d and not v)
+        try:
+            ev20 = os.path.join(VERIF, "evidence", "C20.json")
+            main = json.load(open(ev20))
+            main["coverage"]["placement_through_forwarding"] = {"evaluations": len(scripts), "reference_rejections": nviol, "model_impl_divergences": ndiv,
+                "rule": "two-node clusters with ForwardCommand: every write handed to the follower (same bytes for different databases within one gossip round included) is in the leader's and the follower's dataset, in its database, once, after the round; implementation = extracted model line by line"}
+            main["coverage"]["evaluations"] = main["coverage"].get("evaluations", 0) + len(scripts)
+            main["violations"] = main.get("violations", 0) + nviol + ndiv
+            json.dump(main, open(ev20, "w"), indent=1, sort_keys=True)
+        except Exception:
+            pass
+        log("C20 forwarding part: %d scripts, %d rejections, %d divergences" % (len(scripts), nviol, ndiv))
+        return nviol + ndiv
 
     @classmethod
     def replay_file(cls, path):
+        if os.path.basename(path).startswith("C20_F_"):
+            import C07 as c07
+            j = json.load(open(path)); ensure_built()
+            sc = script_from_json(j["script"]); ref = c07.fwd_reference(sc)
+            a = c07.run_impl07([sc], 2.0).get(sc.id, ["<no output>"]); b = c07.run_model07([sc]).get(sc.id, ["<no output>"])
+            v = c07.oracle07(sc, a) or c07.fwd_verdict(sc, a, c07.run_model07([ref]).get(ref.id, ["<no output>"]))
+            print("script:"); [print("  ", l) for l in sc.lines]
+            print("implementation:", a); print("model:         ", b); print("reference verdict:", v or "accepted")
+            return 1 if (v or c07.compare07(sc, a, b)) else 0
         if os.path.basename(path).startswith("C20P_"):
             import importlib
             from replay import replay
